@@ -11,6 +11,7 @@ import SqlObjVerif.Model.DrvUtil
     `bulkdel <c> <filter>` / `bulkdelby <c> (<a>:<k>:<v>)*` -> `ok`  (`cls.deleteMany(where)` / `cls.deleteBy(**kw)`)
     `destroyb <e> <i> <blocked level>*`               -> `ok del …` | `Integrity del <levels deleted before the refusal>`
     `conn <k>` / `begin` / `rollback` / `commit`      -> `ok`  (select the database the next requests go to; snapshot / restore it)
+    `byalt <e> <a> <k> <v>`                           -> `ok <m>` | `NotFound`  (`E.by<Col>(v)`, column k of class a)
     `dump`                                            -> every row of every table
     `views <i>`                                       -> what every entry level shows for id `i` -/
 open SqlObjVerif SqlObjVerif.Inherit SqlObjVerif.DrvUtil
@@ -215,6 +216,13 @@ def handleOne (s : St) (line : String) : St × String :=
     match c.toNat?, parseKVs kvs with
     | some c, some kvs => ({ s with db := deleteBy s.T s.db c kvs }, "ok")
     | _, _ => (s, "bad-op")
+  | ["byalt", e, a, k, v] =>
+    match e.toNat?, a.toNat?, k.toNat?, v.toInt? with
+    | some e, some a, some k, some v =>
+      match (ids s).filterMap (fun i => byAltRow s.T s.db e a k v i) with
+      | r :: _ => (s, showRes r)
+      | [] => (s, "NotFound")
+    | _, _, _, _ => (s, "bad-op")
   | ["dump"] => (s, dump s)
   | ["views", i] =>
     match i.toNat? with
